@@ -332,15 +332,15 @@ theorem initHealth_unflagged {c : Ctx} {slots : List Account.Slot} {books : Bank
 theorem world_tx_borrow_is_backed {w w' : WState} {tx : List TOp} (h : w.runTx tx = some w')
     (h0 : ∀ (k : Nat) (a : AcctV), w.accts[k]? = some a → inFlash a = false)
     {i ai bi signer : Nat} {amount : Int} (hi : tx[i]? = some (.ix (.borrow ai bi signer amount))) :
-    (∃ (wi : WState) (a : AcctV) (b : WBank) (o : Out) (ps : List Risk.Pos), wi.accts[ai]? = some a ∧ wi.banks[bi]? = some b ∧
+    (∃ (wi : WState) (a : AcctV) (b : WBank) (o : Out) (ps : List Risk.Pos), w.before tx i = some wi ∧ wi.accts[ai]? = some a ∧ wi.banks[bi]? = some b ∧
         borrow (wi.ctx a b signer b.v.liquidityVault 0) amount = .ok o ∧
         portfolio (wi.ctx a b signer b.v.liquidityVault 0) o.slots o.books = .ok ps ∧ Risk.checkInitHealth ps = .ok ()) ∨
     (∃ (j s : Nat) (wj : WState) (a : AcctV) (ps : List Risk.Pos), i < j ∧ tx[j]? = some (.endFlash ai s) ∧ wj.accts[ai]? = some a ∧
         portfolio (wj.actx a s) a.slots noBank.books = .ok ps ∧ Risk.checkInitHealth ps = .ok ()) := by
-  rcases tx_borrow_checked h h0 hi with ⟨wi, a, b, o, ha, hb, ho, hfa, hh⟩ | ⟨j, s, wj, a, f, hij, hj, ha, hf⟩
+  rcases tx_borrow_checked h h0 hi with ⟨wi, a, b, o, hbi, ha, hb, ho, hfa, hh⟩ | ⟨j, s, wj, a, f, hij, hj, ha, hf⟩
   · left
     obtain ⟨ps, hps, hc⟩ := initHealth_unflagged (c := wi.ctx a b signer b.v.liquidityVault 0) hfa hh
-    exact ⟨wi, a, b, o, ps, ha, hb, ho, hps, hc⟩
+    exact ⟨wi, a, b, o, ps, hbi, ha, hb, ho, hps, hc⟩
   · right
     obtain ⟨_, _, _, _, _, _, ps, hps, hc⟩ := world_end_flashloan_enforces_health hf
     exact ⟨j, s, wj, a, ps, hij, hj, ha, hps, hc⟩
@@ -353,17 +353,17 @@ theorem world_tx_borrow_is_backed {w w' : WState} {tx : List TOp} (h : w.runTx t
 theorem world_tx_liquidator_is_backed {w w' : WState} {tx : List TOp} (h : w.runTx tx = some w')
     (h0 : ∀ (k : Nat) (a : AcctV), w.accts[k]? = some a → inFlash a = false)
     {i qi ei abi lbi signer : Nat} {amount : Int} (hi : tx[i]? = some (.ix (.liquidate qi ei abi lbi signer amount))) :
-    ∃ (wi : WState) (lq le : AcctV) (ab lb : WBank) (o : LiqOutW), wi.accts[qi]? = some lq ∧ wi.accts[ei]? = some le ∧
+    ∃ (wi : WState) (lq le : AcctV) (ab lb : WBank) (o : LiqOutW), w.before tx i = some wi ∧ wi.accts[qi]? = some lq ∧ wi.accts[ei]? = some le ∧
       wi.banks[abi]? = some ab ∧ wi.banks[lbi]? = some lb ∧ liquidate (wi.liqCtx lq le ab lb signer) amount = .ok o ∧
       hasFlag le.flags ACCOUNT_IN_FLASHLOAN = false ∧
       ((∃ qs, portfolio2 (wi.liqCtx lq le ab lb signer).risk o.lqSlots ab.v.key o.assetBooks lb.v.key o.liabBooks = .ok qs ∧
           Risk.checkInitHealth qs = .ok ()) ∨
        (∃ (j s : Nat) (wj : WState) (a : AcctV) (ps : List Risk.Pos), i < j ∧ tx[j]? = some (.endFlash qi s) ∧ wj.accts[qi]? = some a ∧
           portfolio (wj.actx a s) a.slots noBank.books = .ok ps ∧ Risk.checkInitHealth ps = .ok ())) := by
-  obtain ⟨wi, lq, le, ab, lb, o, hq, he, hab, hlb, ho, hfl⟩ := tx_liquidate_at h h0 hi
+  obtain ⟨wi, lq, le, ab, lb, o, hbi, hq, he, hab, hlb, ho, hfl⟩ := tx_liquidate_at h h0 hi
   have hspec := Mfi.Props.C05.world_liquidate_spec ho
   obtain ⟨_, _, _, _, _, hle, a, l, ps, pre, ap, lp, ps', lp', post, _, _, _, _, _, _, _, _, _, _, _, _, _, hq'⟩ := hspec
-  refine ⟨wi, lq, le, ab, lb, o, hq, he, hab, hlb, ho, hle, ?_⟩
+  refine ⟨wi, lq, le, ab, lb, o, hbi, hq, he, hab, hlb, ho, hle, ?_⟩
   rcases hq' with hflash | ⟨qs, hqs, hc⟩
   · right
     obtain ⟨j, s, wj, a', f, hij, hj, ha', hf⟩ := hfl hflash
@@ -397,15 +397,15 @@ theorem world_no_liquidation_or_bankruptcy_inside_a_flash_loan :
 theorem world_tx_withdraw_is_backed {w w' : WState} {tx : List TOp} (h : w.runTx tx = some w')
     (h0 : ∀ (k : Nat) (a : AcctV), w.accts[k]? = some a → inFlash a = false)
     {i ai bi signer : Nat} {amount vault : Int} {all : Bool} (hi : tx[i]? = some (.ix (.withdraw ai bi signer amount all vault))) :
-    (∃ (wi : WState) (a : AcctV) (b : WBank) (o : Out), wi.accts[ai]? = some a ∧ wi.banks[bi]? = some b ∧
+    (∃ (wi : WState) (a : AcctV) (b : WBank) (o : Out), w.before tx i = some wi ∧ wi.accts[ai]? = some a ∧ wi.banks[bi]? = some b ∧
         withdraw (wi.ctx a b signer b.v.liquidityVault vault) amount all = .ok o ∧
         (hasFlag a.flags ACCOUNT_IN_RECEIVERSHIP = true ∨
           ∃ ps, portfolio (wi.ctx a b signer b.v.liquidityVault vault) o.slots o.books = .ok ps ∧ Risk.checkInitHealth ps = .ok ())) ∨
     (∃ (j s : Nat) (wj : WState) (a : AcctV) (ps : List Risk.Pos), i < j ∧ tx[j]? = some (.endFlash ai s) ∧ wj.accts[ai]? = some a ∧
         portfolio (wj.actx a s) a.slots noBank.books = .ok ps ∧ Risk.checkInitHealth ps = .ok ()) := by
-  rcases tx_withdraw_checked h h0 hi with ⟨wi, a, b, o, ha, hb, ho, hfa, hh⟩ | ⟨j, s, wj, a, f, hij, hj, ha, hf⟩
+  rcases tx_withdraw_checked h h0 hi with ⟨wi, a, b, o, hbi, ha, hb, ho, hfa, hh⟩ | ⟨j, s, wj, a, f, hij, hj, ha, hf⟩
   · left
-    refine ⟨wi, a, b, o, ha, hb, ho, ?_⟩
+    refine ⟨wi, a, b, o, hbi, ha, hb, ho, ?_⟩
     unfold withdrawHealth at hh
     cases hr : flag (wi.ctx a b signer b.v.liquidityVault vault) ACCOUNT_IN_RECEIVERSHIP with
     | true => left; exact hr
